@@ -218,11 +218,11 @@ SCENARIOS = {
     # name: fixture, depth (quick, thorough), op set, universes
     "edit1": dict(fix="F1", depth=2, tdepth=2, ops=ALL_EDIT, elems=["AR-PACKAGES", "ELEMENTS", "CATEGORY", "SYSTEM-SIGNAL-REF", "SHORT-NAME"],
                   named=["AR-PACKAGE", "SYSTEM-SIGNAL", "I-SIGNAL"], names=["a", "s", "b"], pos=[0, 1], wild=True),
-    "refs": dict(fix="F2", depth=2, tdepth=3, ops=["Rename", "Move", "Remove", "SetRef", "SetText", "RemoveText", "CreateNamed"], elems=[],
+    "refs": dict(fix="F2", depth=2, tdepth=2, ops=["Rename", "Move", "Remove", "SetRef", "SetText", "RemoveText", "CreateNamed"], elems=[],
                  named=["SYSTEM-SIGNAL"], names=["s", "s1", "b", "p"], pos=[], wild=False),
     "files": dict(fix="F3", depth=2, tdepth=3, ops=["CreateFile", "RemoveFile", "AddToFile", "RemoveFromFile", "Remove", "CreateNamed", "CreateSub", "Move", "Copy"],
                   elems=["ELEMENTS"], named=["AR-PACKAGE", "SYSTEM-SIGNAL"], names=["a", "d"], pos=[], wild=False, files=["f1", "f3"], vers=["V50"], ser=True),
-    "copy": dict(fix="F4", depth=2, tdepth=3, ops=["Copy", "Duplicate", "SetAttr", "RemoveAttr", "Rename", "Remove", "SetComment"],
+    "copy": dict(fix="F4", depth=2, tdepth=2, ops=["Copy", "Duplicate", "SetAttr", "RemoveAttr", "Rename", "Remove", "SetComment"],
                  elems=[], named=[], names=["a", "b"], pos=[0], wild=False, ser=True),
 }
 
